@@ -67,7 +67,7 @@ def main():
     ap.add_argument("--tier", default="quick")
     ap.add_argument("--jobs", type=int, default=4)
     ap.add_argument("--workers", type=int, default=4)
-    ap.add_argument("--out", default=None)
+    ap.add_argument("--out", default=os.path.join(HERE, "last_run.json"))
     ap.add_argument("ids", nargs="*")
     args = ap.parse_args()
     sel = [m for m in MUTANTS if not args.ids or any(s in m[0] or s == m[1] for s in args.ids)]
